@@ -9,7 +9,7 @@ import os
 import pathlib
 import shutil
 
-from .. import archive, cards, seams, stubphys, values
+from .. import archive, cards, seams, simpool, stubphys, values
 from ..batch import HarnessError, Scratch
 from ..decider import Decider
 
@@ -68,6 +68,7 @@ def generate(seed, tier, opts):
         # crash consistency does not depend on the physics: keep the real kernels cheap (LO, one target)
         th = cards.gen_theory(d, real=True, order=1)
         op = cards.gen_operator(d, th, real=True, max_targets=1)
+        op["configs"]["n_integration_cores"] = d.pick("cores", [1, 2, 3])
     else:
         th, op = cards.gen_cards(d, real=False, max_targets=3)
     nx = len(op["xgrid"])
@@ -228,6 +229,7 @@ def run_session(case, root, fault=None, ns="run", count_lines=False):
     fail_exc = "FloatingPointError"
     user_after = None
     interrupt_k = None
+    worker_fault = None
     if fault is not None:
         t = fault["type"]
         if t == "fs":
@@ -239,6 +241,8 @@ def run_session(case, root, fault=None, ns="run", count_lines=False):
             user_after = fault["after"]
         elif t == "interrupt":
             interrupt_k = fault["k"]
+        elif t == "worker":
+            worker_fault = dict(item=fault["k"], exc=fault.get("exc", "MemoryError"))
         else:
             raise HarnessError(f"unknown fault type {t}")
     d = Decider(case["wseed"], "fs:" + ns)
@@ -246,7 +250,8 @@ def run_session(case, root, fault=None, ns="run", count_lines=False):
     sm = seams.Seams(root, d, trace=tr, plan=seams.FaultPlan(fs_faults), trace_reads=True, cpu_count=4, exdev_between=("tmp", "out") if case.get("exdev") else None)
     raised = None
     li = None
-    with PhysicsPatch(case, fail_at, fail_exc) as phys:
+    pool_log = []
+    with PhysicsPatch(case, fail_at, fail_exc) as phys, simpool.PoolPatch(Decider(case["wseed"], "pool:" + ns), log=pool_log, fault=worker_fault):
         with sm:
             try:
                 if interrupt_k is not None or count_lines:
@@ -274,7 +279,8 @@ def run_session(case, root, fault=None, ns="run", count_lines=False):
             import gc
 
             gc.collect()
-    fired = bool(sm.faults_fired) or phys.fired or (li is not None and li.fired) or isinstance(raised, UserError)
+    worker_fired = worker_fault is not None and getattr(raised, "ekosim_injected", False)
+    fired = bool(sm.faults_fired) or phys.fired or (li is not None and li.fired) or isinstance(raised, UserError) or worker_fired or (worker_fault is not None and bool(pool_log))
     return dict(
         raised=raised,
         trace=tr,
@@ -284,6 +290,7 @@ def run_session(case, root, fault=None, ns="run", count_lines=False):
         lines=li.count if li is not None else None,
         where=li.where if li is not None else None,
         exdev_hits=sm.exdev_hits,
+        pool_runs=len(pool_log),
     )
 
 
@@ -379,6 +386,10 @@ def enumerate_faults(case, ref, d):
             allf.append(fs_fault_for(d, ev))
     for k in range(ref["phys_calls"]):
         allf.append(dict(type="compute", k=k, exc=d.pick("fault:exc", ["FloatingPointError", "MemoryError", "ValueError"]), site="compute"))
+    if ref.get("pool_runs"):
+        # a transient fault inside a pool worker (item k of every integration)
+        for k in range(len(case["operator"]["xgrid"])):
+            allf.append(dict(type="worker", k=k, exc=d.pick("fault:wexc", ["MemoryError", "OSError", "FloatingPointError"]), site="worker"))
     if case["workload"] != "solve":
         for o in case["ops"]:
             allf.append(dict(type="user", after=o["id"], site="user"))
@@ -404,7 +415,7 @@ def enumerate_faults(case, ref, d):
         classes = sorted(byclass)
         if len(classes) > count:
             # not enough budget for every class: a seeded subset, target-related ones first
-            pri = [c for c in classes if "target" in c or c in ("compute", "user", "interrupt")]
+            pri = [c for c in classes if "target" in c or c in ("compute", "user", "interrupt", "worker")]
             rest_c = d.shuffle("strat:classes", [c for c in classes if c not in pri])
             classes = (d.shuffle("strat:pri", pri) + rest_c)[:count]
         for cls in classes:
